@@ -651,6 +651,36 @@ struct ConvertOptions {
     in_calc: bool,
 }
 
+/// Whether `name` is a CSS math function.
+///
+/// Inside math functions (at any nesting depth), `+` and `-` must keep their surrounding whitespace.
+fn is_math_function(name: &str) -> bool {
+    matches!(
+        name,
+        "calc"
+            | "min"
+            | "max"
+            | "clamp"
+            | "round"
+            | "mod"
+            | "rem"
+            | "hypot"
+            | "pow"
+            | "sqrt"
+            | "sin"
+            | "cos"
+            | "tan"
+            | "asin"
+            | "acos"
+            | "atan"
+            | "atan2"
+            | "log"
+            | "exp"
+            | "abs"
+            | "sign"
+    )
+}
+
 fn convert_rpx_in_block(
     input: &mut StepParser,
     ss: &mut StyleSheetTransformer,
@@ -678,13 +708,18 @@ fn convert_rpx_in_block(
                     Token::CurlyBracketBlock
                     | Token::SquareBracketBlock
                     | Token::ParenthesisBlock => {
+                        let config = if in_calc {
+                            Some(ConvertOptions { in_calc: true })
+                        } else {
+                            None
+                        };
                         let close = ss.append_nested_block(next.clone(), input);
-                        convert_rpx_in_block(input, ss, None);
+                        convert_rpx_in_block(input, ss, config);
                         ss.append_nested_block_close(close, input);
                     }
                     Token::Function(func) => {
                         let func: &str = func;
-                        let config = if func == "calc" {
+                        let config = if in_calc || is_math_function(func) {
                             Some(ConvertOptions { in_calc: true })
                         } else {
                             None
